@@ -359,6 +359,15 @@ def templates(tier="quick"):
     v = Variant("v0", [o, p, Stmt("bin/app", ex=["obj dir/x y.o", "obj dir/z.o"])])
     T += _mk("spaces_depfile_dir", [v], tags=["mkdirs", "spaces", "depfile"], depth=d, files={"inc dir/h.h": "h\n"})
 
+    # T14b outputs in directories nobody has made: an implicit output in a directory of its own (not shared with an explicit
+    # one), written in the manifest and supplied by a dyndep file
+    v = Variant("v0", [Stmt("a", iouts=["gen/sub/b.h"], ex=["s"]), Stmt("use", ex=["a"], im=["gen/sub/b.h"])])
+    T += _mk("implicit_output_in_a_new_directory", [v], tags=["mkdirs", "implicit-output"], depth=min(d, 3))
+    ddm = _ddt([("out", ["mods/m/out.mod"], [], False)])
+    v = Variant("v0", [Stmt("dd", ex=["dd.in"], copy=True), Stmt("out", ex=["in"], oo=["dd"], dyndep="dd", extra_outs=["mods/m/out.mod"]),
+                       Stmt("top", ex=["out"])])
+    T += _mk("dyndep_output_in_a_new_directory", [v], tags=["mkdirs", "dyndep"], depth=min(d, 3), files={"dd.in": ddm}, touch_only=("dd.in",))
+
     # T22 dyndep information discovered mid-build names the output of a pooled / console / plain statement that is
     # already running, already delayed by its pool, or already done (the discovered producer was ready at the start)
     from family_cycles import dyndep_text
